@@ -49,6 +49,20 @@ def native_search():
     d = tempfile.mkdtemp(prefix="c14_")
     try:
         blobs = [c.encode() for c in CONTENTS] + [b"\xff\xfe{}", b"{\"1\": \"\xc3\"}"]
+        # every single-field type/shape mutation of a valid record (the property's own quantifier, bounded)
+        node = {"node_id": 1, "node_type": 17, "protocol_version": "2.2", "sketch_name": "s", "sketch_version": "1", "battery_level": 5, "heartbeat": 3,
+                "sleeping": False, "children": {"3": {"child_id": 3, "child_type": 6, "description": "d", "values": {"0": "20"}}}}
+        weird = ["null", "true", "5", "-7", "1.5", "NaN", "Infinity", "1e999", "\"x\"", "\"\"", "\"n/a\"", "\"12\"", "[]", "[1]", "{}", "{\"a\": 1}"]
+        for fld in list(node) + ["children.3.child_id", "children.3.child_type", "children.3.description", "children.3.values", "children.3"]:
+            for wv in weird:
+                rec = json.loads(json.dumps(node))
+                tgt, key = rec, fld
+                if fld.startswith("children.3"):
+                    parts = fld.split(".")
+                    tgt = rec["children"] if len(parts) == 2 else rec["children"]["3"]
+                    key = "3" if len(parts) == 2 else parts[2]
+                tgt[key] = "@@"
+                blobs.append(json.dumps({"1": rec}).replace("\"@@\"", wv).encode())
         valid = CONTENTS[-3].encode()
         blobs += [valid[:i] for i in range(0, len(valid), 7)]
         for b in blobs:
